@@ -9,10 +9,10 @@ Require Import MV.Common.Interleave MV.C16.Model MV.C16.Conc.
 Open Scope N_scope.
 
 Definition region (p : pc) : bool :=
-  match p with K5 _ | K6 _ _ | K7 _ _ | K8 _ _ _ _ _ _ _ _ | K9 _ _ _ _ _ _ | K10 _ _ _ => true | _ => false end.
+  match p with K5 _ | K6 _ _ | K7 _ _ | K8 _ _ _ _ _ _ _ _ _ | K9 _ _ _ _ _ _ _ | K10 _ _ _ _ => true | _ => false end.
 
 Definition drain_side (p : pc) : option bool :=
-  match p with K7 _ up => Some up | K8 sd _ _ _ _ _ _ _ => Some sd | K9 sd _ _ _ _ _ => Some sd | _ => None end.
+  match p with K7 _ up => Some up | K8 _ sd _ _ _ _ _ _ _ => Some sd | K9 _ sd _ _ _ _ _ => Some sd | _ => None end.
 
 Definition Inv2 (c : config) : Prop :=
   (forall t l, nth_error (snd c) t = Some l -> me l = N.of_nat t) /\
